@@ -5,7 +5,7 @@ ID = 'C12'
 RULE = ('three streams. (a) byte level, compared with the Lean model: crc32fast::hash vs crc32 on random/structured buffers (every length 0..64, lengths to 4096), and DataView::<T>::using on frames built '
         'from arbitrary bodies for five message types with root sizes 4/8/64/12/..: valid frames, every single-bit flip of small frames, every truncation, extensions, frames with valid CRC but shorter than the '
         'root (incl. the 4-byte frame of the empty body). (b) value level on the implementation: Payload/Status values (empty, nested, up to 1 MiB) a message that is one big Vec<String> (0..5000 elements, around the 16 KiB scratch tier) and narrow types (u8, bool, u16, [u8;3], [u8;5], [u8;7]: roots with alignment 1-2 and odd sizes) through to_view_bytes -> DataView::using -> deserialize_view, '
-        'with EVERY single-bit flip (exhaustive up to 2 KiB frames, strided above), every truncation and some extensions of the real frame. (c) end to end over loopback: echo handler and error handler. '
+        'with EVERY single-bit flip (exhaustive up to 2 KiB frames, strided above), every truncation and some extensions of the real frame. (c) end to end over loopback: echo handler and error handler, and bursts of 2-24 concurrent echo requests of up to 200 KB over ONE connection. '
         'non-trivial = a case containing both accepted and rejected frames, or a value round trip; distinct by hash')
 ASSUMPTIONS = ['accepted frames always have a 16-byte aligned root (true of every frame to_view_bytes produces; a mis-aligned root is undefined behaviour inside rkyv::archived_root and is not generated)', 'rkyv (de)serialisation is a codec pair with dec(enc v) = v; its layout, alignment and the unchecked cast are outside the Lean model (observed by stream (b), not proved)',
                'crc32fast is modelled bitwise (CRC-32/ISO-HDLC) and tied by stream (a); its SIMD/table implementation is not verified',
@@ -69,7 +69,10 @@ def gen_case(rng, idx, heavy):
             if rng.chance(1, 3):
                 lines.append('roundtrip-status %d %s' % (rng.below(5), hx(''.join(rng.choice('ab é/') for _ in range(rng.below(40))).encode())))
         else:
-            if rng.chance(1, 2):
+            if rng.chance(1, 8):
+                # many large messages in flight at once over one connection (HTTP/2 flow control cuts frames short mid-body)
+                lines.append('echo-burst %d %d %d' % (rng.below(1 << 32), rng.choice([100, 20000, 33000, 40000, 70000, 200000]), rng.choice([2, 8, 16, 24])))
+            elif rng.chance(1, 2):
                 lines.append('echo %d %d' % (rng.below(1 << 32), rng.choice([0, 3, 500, 40000] if not heavy else [0, 100, 1 << 20])))
             else:
                 lines.append('fail %d %s' % (rng.below(5), hx(''.join(rng.choice('xyz ü') for _ in range(rng.below(30))).encode())))
@@ -106,7 +109,7 @@ def generate(rng, tier):
 
 def canon(line, out):
     # value-level and end-to-end lines have no byte-level model counterpart
-    return 'x' if line.split()[0] in ('roundtrip', 'roundtrip-narrow', 'roundtrip-status', 'echo', 'fail') else out
+    return 'x' if line.split()[0] in ('roundtrip', 'roundtrip-narrow', 'roundtrip-status', 'echo', 'echo-burst', 'fail') else out
 
 
 def kv(out):
@@ -137,6 +140,8 @@ def oracle(case, impl):
             if d.get('truncs_short_accepted') != '0': bad.append('%s: truncations below root+trailer accepted: %s' % (line, out))
         elif t[0] == 'echo':
             if out != 'echo same=true': bad.append('%s: %s' % (line, out))
+        elif t[0] == 'echo-burst':
+            if out != 'burst %sxsame' % t[3]: bad.append('%s: of %s concurrent requests on one connection: %s' % (line, t[3], out))
         elif t[0] == 'fail':
             exp = 'fail %d %s' % (int(t[1]) % 5, t[2])
             if out != exp: bad.append('%s: client saw `%s`, handler returned `%s`' % (line, out, exp))
